@@ -174,11 +174,32 @@ def _work(item):
 
 def load_known_findings(pid):
     path = os.path.join(VERIF, 'known_findings.json')
-    if not os.path.exists(path):
+    if not os.path.exists(path) or os.environ.get('PMC_NO_KNOWN') == '1':   # knob of tools/kf_inputs.py only
         return []
     with open(path) as f:
         data = json.load(f)
     return [e for e in data.get('findings', []) if e.get('property') == pid and e.get('status') == 'open']
+
+
+_INPUTS = {}
+
+
+def entry_matches(entry, sig):
+    """a known finding is identified by its signature (all listed keys equal) and, where the entry lists the failing
+    inputs one by one ('inputs' or 'inputs_file', a committed JSON list), by the violation's 'input' being one of them:
+    the same kind of failure at any other input is reported as a violation"""
+    if not sig_matches(entry['signature'], sig):
+        return False
+    if 'inputs' in entry or 'inputs_file' in entry:
+        key = entry['id']
+        if key not in _INPUTS:
+            vals = list(entry.get('inputs', []))
+            if 'inputs_file' in entry:
+                with open(os.path.join(VERIF, entry['inputs_file'])) as f:
+                    vals += json.load(f)
+            _INPUTS[key] = set(vals)
+        return sig.get('input') in _INPUTS[key]
+    return True
 
 
 def sig_matches(entry_sig, sig):
@@ -347,7 +368,7 @@ def finish(pid, tier, seed, mod, col, info):
     hit = {}
     fresh = []
     for sk, (idx, v) in sorted(col.violations.items(), key=lambda kv: kv[1][0]):
-        entry = next((e for e in known if sig_matches(e['signature'], v['signature'])), None)
+        entry = next((e for e in known if entry_matches(e, v['signature'])), None)
         if entry is not None:
             hit.setdefault(entry['id'], (entry, v))
         else:
